@@ -439,7 +439,8 @@ class C19(Prop):
     header = 'From RP Require Import Descr.Types Descr.Model Descr.Oracle Gen.Descr Gen.PDescr.'
     clauses = ['idempotent', 'alias_preserved', 'mode_enforced', 'untouched_preserved', 'dict_roundtrip',
                'twin_same', 'slots_preserved', 'envelope_roundtrip', 'sequence_independent',
-               'decode_independent_of_earlier_results']
+               'decode_independent_of_earlier_results', 'bulk_descriptions_keep_normal_form',
+               'refusal_leaves_siblings']
     corr_name = ('Descr.Model(construct/as_dict/verify over Gen.Descr.td_table, pd_verify over pd_table; '
                  'slots_to_new/slots_to_old/slot_ctor; transport) vs TaskDescription/PilotDescription/ru.TypedDict, convert_slots_to_new/_old/Slot, PythonTask')
     rule = ('corpus; for every alias block a family of descriptions giving the deprecated name alone (several values, '
@@ -725,6 +726,63 @@ class C19(Prop):
             ops += [['append', 1, k, dk or '', 'late']]
         return {'kind': 'dseq', 'cls': cls, 'template': template, 'ops': ops}
 
+    # descriptions verify() refuses, one per reason it knows
+    REFUSED = [{'mode': 'task.function'},                                   # required attribute missing
+               {'mode': 'task.function', 'function': 'f', 'named_env': 'e'},   # forbidden attribute present
+               {'mode': 'task.shell'}, {'mode': 'task.eval'}, {},          # command / code / executable missing
+               {'executable': 'x', 'ranks': 'abc'},                        # a value that cannot be cast
+               {'executable': 'x', 'foo': 1},                              # a key outside the schema
+               {'executable': 'x', 'ranks': None},                         # use_mpi cannot be derived
+               {'executable': 'x', 'environment': 'notadict'}]
+
+    def _bulk_valid(self, rng, uid=None):
+        d = {'executable': rng.choice(['/bin/true', 'a', 'x y'])}
+        if rng.random() < 0.4:
+            src, dst, conv, rf = rng.choice(table()['aliases'])
+            d[src] = {'TInt': rng.choice([2, 4]), 'TStr': 'W'}.get(table()['schema'][src][1], 'W')
+        if rng.random() < 0.3:
+            d['arguments'] = ['a', 'b']
+        if rng.random() < 0.2:
+            d['name'] = 5                                                   # needs a cast
+        if uid is not None:
+            d['uid'] = uid
+        return d
+
+    def _bulk_case(self, rng, shape=None):
+        """Description objects (sources) and the submit_tasks calls made with them (lists of object
+        numbers; a number twice = the same object listed twice)."""
+        shape = shape or rng.choice(['valid', 'refused', 'refused', 'dup_uid', 'same_object', 'resubmit', 'mixed'])
+        n = rng.randint(1, 4)
+        srcs = []
+        for i in range(n):
+            uid = 'app.%d' % i if rng.random() < 0.5 else None
+            srcs.append(self._bulk_valid(rng, uid))
+        calls = [list(range(n))]
+        if shape in ('refused', 'resubmit', 'mixed'):
+            j = rng.randint(0, n)
+            bad = copy.deepcopy(rng.choice(self.REFUSED))
+            if rng.random() < 0.4:
+                bad['uid'] = 'app.bad'
+            srcs.insert(j, bad)
+            n += 1
+            calls = [list(range(n))]
+            if j > 0 and rng.random() < 0.7 and 'uid' not in srcs[j - 1]:
+                srcs[j - 1]['uid'] = 'app.pre'
+            if shape in ('resubmit', 'mixed'):
+                calls.append([i for i in range(n) if i != j])           # the corrected bulk
+        if shape in ('dup_uid', 'mixed') and n >= 2:
+            a, b = rng.sample(range(n), 2)
+            if 'mode' not in srcs[a] or srcs[a].get('executable'):
+                srcs[a]['uid'] = srcs[b]['uid'] = 'app.same'
+        if shape in ('same_object', 'mixed'):
+            k = rng.randrange(n)
+            calls[0].insert(rng.randint(0, len(calls[0])), k)
+        if shape == 'valid' and rng.random() < 0.5:
+            calls.append([rng.randrange(n)])                               # submitted a second time
+        if rng.random() < 0.2:
+            calls = [c[:1] if i == 0 and rng.random() < 0.3 else c for i, c in enumerate(calls)]
+        return {'kind': 'bulk', 'shape': shape, 'srcs': srcs, 'calls': calls}
+
     DEC_ARGS = [['a', 'b'], 1, {'k': 1}]
     DEC_KW = {'extra': {'k': 1}, 'comm': None, 'items': ['x']}
 
@@ -838,10 +896,24 @@ class C19(Prop):
                    'args': [rng.choice(pool) for _ in range(rng.randint(0, 3))],
                    'kwargs': None if rng.random() < 0.3 else
                    {k: rng.choice(pool) for k in rng.sample(['p', 'q', 'n'], rng.randint(0, 2))}}
+        # TaskManager.submit_tasks on bulks: a description with an application-chosen uid followed by
+        # each kind of refused description; duplicates; the same object twice; then random ones
+        for bad in self.REFUSED:
+            yield {'kind': 'bulk', 'shape': 'refused', 'calls': [[0, 1, 2]],
+                   'srcs': [{'executable': '/bin/true', 'uid': 'app.0'}, copy.deepcopy(bad), {'executable': 'a'}]}
+        yield {'kind': 'bulk', 'shape': 'refused', 'calls': [[0, 1, 2], [0, 2]],
+               'srcs': [{'executable': 'x'}, {'mode': 'task.function'}, {'executable': 'a', 'uid': 'app.2'}]}
+        yield {'kind': 'bulk', 'shape': 'dup_uid', 'calls': [[0, 1]],
+               'srcs': [{'executable': 'x', 'uid': 'app.same'}, {'executable': 'y', 'uid': 'app.same'}]}
+        yield {'kind': 'bulk', 'shape': 'same_object', 'calls': [[0, 1, 0]],
+               'srcs': [{'executable': 'x'}, {'executable': 'y', 'cpu_processes': 4}]}
+        yield {'kind': 'bulk', 'shape': 'valid', 'calls': [[0]], 'srcs': [{'executable': 'x', 'uid': 'app.0'}]}
+        for _ in range(60 if tier == 'quick' else 1200):
+            yield self._bulk_case(rng)
         # one string decoded k >= 2 times, the earlier results changed in place in between
         for spec in self._decseq_systematic():
             yield spec
-        for _ in range(40 if tier == 'quick' else 1500):
+        for _ in range(40 if tier == 'quick' else 1000):
             yield self._decseq_case(rng)
         # the real raptor worker dispatching the same function string several times
         for how in ('kw', 'arg', 'plain'):
@@ -866,7 +938,7 @@ class C19(Prop):
                 yield self._envseq_case(rng, name, via, 3)
         for _ in range(40 if tier == 'quick' else 1500):
             yield self._envseq_case(rng)
-        n_td, n_sl, n_env, n_pd = (400, 150, 100, 100) if tier == 'quick' else (9000, 4000, 2500, 2500)
+        n_td, n_sl, n_env, n_pd = (400, 150, 100, 100) if tier == 'quick' else (7500, 3500, 2000, 2000)
         for _ in range(n_td):
             yield self._td_case(rng)
         yield {'kind': 'pd', 'd': {}}
@@ -1267,6 +1339,82 @@ class C19(Prop):
             raise RuntimeError(out['err'])
         return out['ok']
 
+    def _bulk_run(self, srcs, calls):
+        """The real TaskManager.submit_tasks (TaskManager built without __init__; advance() records) on
+        fresh description objects made from `srcs`.  Generated uids are renamed GEN<k> in the order
+        they were generated.  Returns per call: exception kind, the objects whose tasks were handed on,
+        how many tasks were constructed, and the _data of every object after the call."""
+        import threading
+        from unittest import mock
+        import radical.utils as ru
+        import radical.pilot.states as rps
+        from radical.pilot.task_manager import TaskManager
+        with mock.patch.object(TaskManager, '__init__', return_value=None):
+            tm = TaskManager()
+        tm._tasks_lock, tm._rep, tm._log = threading.RLock(), mock.Mock(), mock.Mock()
+        tm._session = mock.Mock()
+        tm._session.uid = 'sess.c19'
+        tm._known_uids, tm._tasks, tm._uid = set(), {}, 'tmgr.0000'
+        rec = []
+
+        def advance(things, state=None, publish=True, push=False, **kw):
+            rec.append((state, [t['uid'] for t in (things if isinstance(things, list) else [things])]))
+        tm.advance = advance
+        generated = []
+        real_gen = ru.generate_id
+
+        def gen(*a, **k):
+            u = real_gen(*a, **k)
+            generated.append(u)
+            return u
+        objs = [self.rp.TaskDescription(from_dict=copy.deepcopy(x)) for x in srcs]
+
+        def snap():
+            ren = {u: 'GEN%d' % i for i, u in enumerate(generated)}
+            out = []
+            for o in objs:
+                d = dict(o._data)
+                if d.get('uid') in ren:
+                    d['uid'] = ren[d['uid']]
+                out.append(tag_descr(d))
+            return out
+        res = []
+        with mock.patch.object(ru, 'generate_id', side_effect=gen):
+            for ids in calls:
+                del rec[:]
+                exc = None
+                try:
+                    tasks = tm.submit_tasks([objs[i] for i in ids])
+                    if [t.description is objs[i] for t, i in zip(tasks, ids)] != [True] * len(ids):
+                        raise RuntimeError('returned tasks do not carry the descriptions passed')
+                except (KeyError, TypeError, ValueError, AttributeError) as e:
+                    exc = exc_name(e)
+                ren = {u: 'GEN%d' % i for i, u in enumerate(generated)}
+                handed = [u for st, us in rec if st == rps.TMGR_SCHEDULING_PENDING for u in us]
+                made = sum(len(us) for st, us in rec if st == rps.NEW)
+                by_uid = {}
+                for i in ids:
+                    by_uid.setdefault(objs[i]._data.get('uid'), i)
+                res.append({'exc': exc, 'handed': [by_uid[u] for u in handed], 'made': made, 'snap': snap(),
+                            'known': sorted(ren.get(u, str(u)) for u in tm._known_uids)})
+        if len(set(generated)) != len(generated):
+            raise RuntimeError('generated uids are not unique: %s' % generated)
+        return res
+
+    def _run_bulk(self, case):
+        res = self._bulk_run(case['srcs'], case['calls'])
+        # reference for a refused call: the same history, that call with only the siblings handled
+        # before the refusal
+        refs = []
+        for c, r in enumerate(res):
+            if r['exc'] is None:
+                continue
+            pre = case['calls'][c][:r['made']]
+            ref = self._bulk_run(case['srcs'], case['calls'][:c] + [pre]) if pre else None
+            refs.append({'call': c, 'pre': pre, 'ref': ref[-1]['snap'] if ref else None,
+                         'ref_exc': ref[-1]['exc'] if ref else None})
+        return {'calls': res, 'refs': refs}
+
     def _run_decseq(self, case):
         """Encode once; then get_func_attr on the SAME string again and again, the results of earlier
         decodes being changed in place in between.  Every result is looked at right when it is returned."""
@@ -1358,6 +1506,8 @@ class C19(Prop):
         return {'fresh': out}
 
     def _run_case(self, case):
+        if case['kind'] == 'bulk':
+            return self._run_bulk(case)
         if case['kind'] == 'decseq':
             return self._run_decseq(case)
         if case['kind'] == 'dispatch':
@@ -1440,6 +1590,30 @@ class C19(Prop):
             return '(c19_slots_row %s %s %s %s %s)' % (
                 L.lst([self.OPS[o] for o in case['ops']]), L.lst([self._coq_slot(s) for s in case['slots']]),
                 L.lst(st), L.lst([self._coq_slot(s) for s in obs['input_after']]), L.boolean(obs['rerun_same']))
+        if case['kind'] == 'bulk':
+            names, lets = {}, []
+
+            def sref(td):
+                key = repr(td)
+                if key not in names:
+                    names[key] = 'b%d' % len(names)
+                    lets.append('let %s := %s in ' % (names[key], coq_descr(td)))
+                return names[key]
+            srcs = L.lst([coq_descr(tag_descr(x)) for x in case['srcs']])
+            calls = L.lst([L.lst([L.nat(i) for i in ids]) for ids in case['calls']])
+            ob = L.lst(['(%s, %s, %s)' % ('None' if r['exc'] is None else '(Some %s)' % errname(r['exc']),
+                                          L.lst([L.nat(i) for i in r['handed']]),
+                                          L.lst([sref(d) for d in r['snap']])) for r in obs['calls']])
+            refs = []
+            for r in obs['refs']:
+                if r['ref'] is None:
+                    continue
+                if r['ref_exc'] is not None:
+                    raise RuntimeError('the reference call (siblings only) raised %s' % r['ref_exc'])
+                refs.append('(%s, %s, %s)' % (L.lst([L.nat(i) for i in r['pre']]),
+                                              L.lst([sref(d) for d in obs['calls'][r['call']]['snap']]),
+                                              L.lst([sref(d) for d in r['ref']])))
+            return '(%sc19_bulk_row td_table %s %s %s %s)' % (''.join(lets), srcs, calls, ob, L.lst(refs))
         if case['kind'] == 'decseq':
             x = self._coq_dres(case['state'], [tag_val(a) for a in case['args']],
                                [[k, tag_val(v)] for k, v in case['kwargs'].items()])
@@ -1542,6 +1716,11 @@ class C19(Prop):
         return L.lst(out)
 
     def model_show(self, case):
+        if case['kind'] == 'bulk':
+            return ('map (fun r => (fst (fst r), snd (fst r))) (snd (submit_calls (verify td_table) %s '
+                    '(mkSub (init_store td_table %s) [] 0)))' % (
+                        L.lst([L.lst([L.nat(i) for i in ids]) for ids in case['calls']]),
+                        L.lst([coq_descr(tag_descr(x)) for x in case['srcs']])))
         if case['kind'] == 'decseq':
             x = self._coq_dres(case['state'], [tag_val(a) for a in case['args']],
                                [[k, tag_val(v)] for k, v in case['kwargs'].items()])
@@ -1584,6 +1763,8 @@ class C19(Prop):
 
     # ------------------------------------------------------------------ meta
     def nontrivial(self, case, obs):
+        if case['kind'] == 'bulk':
+            return len(case['srcs']) >= 2
         if case['kind'] in ('decseq', 'dispatch'):
             return True
         if case['kind'] == 'slotdefault':
@@ -1601,6 +1782,13 @@ class C19(Prop):
         return callable(FUNCS[case['func']])
 
     def signature(self, case, obs, clause):
+        if case['kind'] == 'bulk':
+            refused = any(r['exc'] is not None for r in obs['calls'])
+            what = 'uid-of-a-sibling' if any(
+                dict(d).get('uid') != ['s', src['uid']] for r in obs['calls']
+                for src, d in zip(case['srcs'], r['snap']) if isinstance(src.get('uid'), str)
+                and src['uid'] != 'app.bad') else 'other-attribute'
+            return '%s:TaskManager.submit_tasks:%s:%s' % (clause, 'refused-bulk' if refused else 'accepted-bulk', what)
         if case['kind'] == 'decseq':
             want = {'state': case['state'], 'args': [tag_val(a) for a in case['args']],
                     'kwargs': [[k, tag_val(v)] for k, v in case['kwargs'].items()]}
@@ -1715,6 +1903,20 @@ class C19(Prop):
         return [i for i, _ in data]
 
     def shrink(self, case):
+        if case['kind'] == 'bulk':
+            srcs, calls = case['srcs'], case['calls']
+            if len(calls) > 1:
+                yield dict(case, calls=calls[:-1])
+            for i in range(len(srcs)):                  # drop an object everywhere
+                if len(srcs) > 1:
+                    c2 = [[(j if j < i else j - 1) for j in ids if j != i] for ids in calls]
+                    if all(c2):
+                        yield dict(case, srcs=srcs[:i] + srcs[i + 1:], calls=c2)
+            for i, x in enumerate(srcs):                # drop an attribute
+                for k in list(x):
+                    if k not in ('executable', 'mode', 'uid'):
+                        yield dict(case, srcs=srcs[:i] + [{a: b for a, b in x.items() if a != k}] + srcs[i + 1:])
+            return
         if case['kind'] == 'dispatch':
             if case['runs'] > 2:
                 yield dict(case, runs=case['runs'] - 1)
@@ -1833,7 +2035,13 @@ class C19(Prop):
             c = r['case']
             kinds[c['kind']] = kinds.get(c['kind'], 0) + 1
             o = r['obs'] or {}
-            if c['kind'] in ('decseq', 'dispatch'):
+            if c['kind'] == 'bulk':
+                k = 'bulk:%s' % c.get('shape')
+                ops[k] = ops.get(k, 0) + 1
+                for r in o.get('calls', []):
+                    e = 'bulk:' + (r['exc'] or 'accepted')
+                    excs[e] = excs.get(e, 0) + 1
+            elif c['kind'] in ('decseq', 'dispatch'):
                 k = '%s:%s' % (c['kind'], c['via'])
                 ops[k] = ops.get(k, 0) + 1
             elif c['kind'] == 'slotdefault':
